@@ -2,8 +2,8 @@
 """Runs every seeded change under /verif/seeded against the checks, on a scratch
 worktree of /repo (never /repo itself), and writes seeded/<id>/meta.json."""
 import json, os, subprocess, sys, glob, re, time
-SCRATCH = '/tmp/seedrun'
-EVID = '/tmp/seedrun_evidence'
+SCRATCH = os.environ.get('SEED_SCRATCH', '/tmp/seedrun')
+EVID = SCRATCH + '_evidence'
 env = dict(os.environ, GOFLAGS='-mod=mod', GOPROXY='off', GOSUMDB='off', GOTOOLCHAIN='local', VF_REPO=SCRATCH, VF_EVIDENCE_DIR=EVID)
 def sh(cmd, **kw):
     return subprocess.run(cmd, shell=True, capture_output=True, text=True, **kw)
@@ -14,7 +14,7 @@ if not os.path.isdir(SCRATCH):
         sys.exit('cannot create scratch worktree: ' + r.stderr)
 only = sys.argv[1:]
 # extra properties whose checks are also expected to notice a change
-also = {'C01-r4m1': ['C16'], 'C01-r4m2': ['C03','C02'], 'C02-r4m2': ['C03'], 'C03-r4m1': ['C02'], 'C04-r4m1': ['C06'], 'C04-r4m2': ['C06'], 'C05-r4m1': ['C06','C12','C19'], 'C05-r4m2': ['C10','C17'], 'C06-r4m1': ['C19','C12'], 'C06-r4m2': ['C02'], 'C07-r4m1': ['C08','C11'], 'C07-r4m2': ['C08'], 'C08-r4m1': ['C09','C15'], 'C08-r4m2': ['C07'], 'C09-r4m1': ['C11'], 'C09-r4m2': ['C08'], 'C10-r4m1': ['C05','C17'], 'C10-r4m2': ['C14','C07'], 'C11-r4m1': ['C06','C19'], 'C11-r4m2': ['C09','C13'], 'C12-r4m1': ['C01'], 'C12-r4m2': ['C06','C19'], 'C13-r4m1': ['C07'], 'C13-r4m2': ['C01','C03'], 'C14-r4m1': ['C10'], 'C14-r4m2': ['C17'], 'C15-r4m1': ['C13'], 'C15-r4m2': ['C09','C08'], 'C16-r4m1': ['C17','C14'], 'C16-r4m2': ['C17'], 'C19-r4m1': ['C11'], 'C19-r4m2': ['C06','C12'], 'C11-r3m1': ['C09'], 'C11-r3m2': ['C13','C09'], 'C13-r3m1': ['C09','C11'], 'C15-r3m1': ['C12','C01'], 'C15-r3m2': ['C14','C01'], 'C14-r3m2': ['C15','C02'], 'C16-r3m1': ['C17'], 'C16-r3m2': ['C14'], 'C19-r3m2': ['C06','C12'], 'C12-r3m2': ['C01'], 'C20-r3m2': ['C09'], 'C17-r3m2': ['C16'], 'C03-r3m2': ['C13','C01'], 'C05-r3m1': ['C06','C10'], 'C04-r3m1': ['C06','C10'], 'C05-r3m2': ['C06','C12'], 'C02-r3m2': ['C06','C08'], 'C01-r3m1': ['C12','C19'], 'C01-r3m2': ['C02'], 'C10-r3m1': ['C16'], 'C10-r3m2': ['C05'], 'C08-r3m2': ['C07'], 'C07-r3m2': ['C08'], 'C04-r3m2': ['C06','C12'], 'C09-r3m1': ['C11'], 'C08-m2': ['C06'], 'C04-m2': ['C06'], 'C11-m1': ['C09'], 'C03-m2': ['C13'], 'C01-m1': ['C13'], 'C15-m2': ['C01'], 'C01-m2': ['C12'], 'C02-m2': ['C01', 'C03'], 'C04-r2m1': ['C06', 'C08'], 'C04-r2m2': ['C12'], 'C19-r2m2': ['C06'], 'C12-r2m1': ['C19'], 'C07-r2m2': ['C13'], 'C01-r2m1': ['C13'], 'C11-r2m1': ['C09'], 'C11-r2m2': ['C17'], 'C03-r2m1': ['C02'], 'C02-r2m2': ['C03'], 'C15-r2m2': ['C13']}
+also = {'C03-r5m2': ['C02'], 'C05-r5m1': ['C12'], 'C06-r5m1': ['C12','C03'], 'C08-r5m2': ['C09','C13'], 'C10-r5m1': ['C06','C13'], 'C04-r5m1': ['C06','C12'], 'C12-r5m2': ['C06','C19'], 'C11-r5m1': ['C05','C07'], 'C14-r5m1': ['C17'], 'C16-r5m2': ['C14'], 'C17-r5m2': ['C14'], 'C20-r5m1': ['C09'], 'C09-r5m1': ['C11'], 'C01-r5m2': ['C12'], 'C01-r4m1': ['C16'], 'C01-r4m2': ['C03','C02'], 'C02-r4m2': ['C03'], 'C03-r4m1': ['C02'], 'C04-r4m1': ['C06'], 'C04-r4m2': ['C06'], 'C05-r4m1': ['C06','C12','C19'], 'C05-r4m2': ['C10','C17'], 'C06-r4m1': ['C19','C12'], 'C06-r4m2': ['C02'], 'C07-r4m1': ['C08','C11'], 'C07-r4m2': ['C08'], 'C08-r4m1': ['C09','C15'], 'C08-r4m2': ['C07'], 'C09-r4m1': ['C11'], 'C09-r4m2': ['C08'], 'C10-r4m1': ['C05','C17'], 'C10-r4m2': ['C14','C07'], 'C11-r4m1': ['C06','C19'], 'C11-r4m2': ['C09','C13'], 'C12-r4m1': ['C01'], 'C12-r4m2': ['C06','C19'], 'C13-r4m1': ['C07'], 'C13-r4m2': ['C01','C03'], 'C14-r4m1': ['C10'], 'C14-r4m2': ['C17'], 'C15-r4m1': ['C13'], 'C15-r4m2': ['C09','C08'], 'C16-r4m1': ['C17','C14'], 'C16-r4m2': ['C17'], 'C19-r4m1': ['C11'], 'C19-r4m2': ['C06','C12'], 'C11-r3m1': ['C09'], 'C11-r3m2': ['C13','C09'], 'C13-r3m1': ['C09','C11'], 'C15-r3m1': ['C12','C01'], 'C15-r3m2': ['C14','C01'], 'C14-r3m2': ['C15','C02'], 'C16-r3m1': ['C17'], 'C16-r3m2': ['C14'], 'C19-r3m2': ['C06','C12'], 'C12-r3m2': ['C01'], 'C20-r3m2': ['C09'], 'C17-r3m2': ['C16'], 'C03-r3m2': ['C13','C01'], 'C05-r3m1': ['C06','C10'], 'C04-r3m1': ['C06','C10'], 'C05-r3m2': ['C06','C12'], 'C02-r3m2': ['C06','C08'], 'C01-r3m1': ['C12','C19'], 'C01-r3m2': ['C02'], 'C10-r3m1': ['C16'], 'C10-r3m2': ['C05'], 'C08-r3m2': ['C07'], 'C07-r3m2': ['C08'], 'C04-r3m2': ['C06','C12'], 'C09-r3m1': ['C11'], 'C08-m2': ['C06'], 'C04-m2': ['C06'], 'C11-m1': ['C09'], 'C03-m2': ['C13'], 'C01-m1': ['C13'], 'C15-m2': ['C01'], 'C01-m2': ['C12'], 'C02-m2': ['C01', 'C03'], 'C04-r2m1': ['C06', 'C08'], 'C04-r2m2': ['C12'], 'C19-r2m2': ['C06'], 'C12-r2m1': ['C19'], 'C07-r2m2': ['C13'], 'C01-r2m1': ['C13'], 'C11-r2m1': ['C09'], 'C11-r2m2': ['C17'], 'C03-r2m1': ['C02'], 'C02-r2m2': ['C03'], 'C15-r2m2': ['C13']}
 for d in sorted(glob.glob('/verif/seeded/*')):
     sid = os.path.basename(d)
     if only and sid not in only:
@@ -27,7 +27,7 @@ for d in sorted(glob.glob('/verif/seeded/*')):
     if r.returncode != 0:
         print(sid, 'PATCH DOES NOT APPLY'); continue
     results = []
-    for p in [prop] + also.get(sid, []):
+    for p in ([] if os.environ.get('SKIP_OWN') else [prop]) + also.get(sid, []):
         for tier in os.environ.get('TIERS', 'quick,thorough').split(','):
             t0 = time.time()
             r = sh(f'cd /verif && timeout 2400 ./bin/vfrun check -prop {p} -tier {tier}', env=env)
